@@ -5,6 +5,7 @@ package vh
 // interrupt; what their output holds is logged for spec/cli/CmdLoopTrace.tla.
 
 import (
+	"bytes"
 	"fmt"
 	"io"
 	"math"
@@ -54,6 +55,9 @@ func TestDrv_CmdLoop(t *testing.T) {
 					c.fifo = filepath.Join(dir, fmt.Sprintf("cl%d.fifo", k))
 					c.out = filepath.Join(dir, fmt.Sprintf("cl%d.out", k))
 					must(syscall.Mkfifo(c.fifo, 0o600))
+					if k%3 == 1 { // an output file left over from an earlier run, longer than the new output: it is replaced, not overwritten in place
+						must(os.WriteFile(c.out, bytes.Repeat([]byte("stale output of an earlier run\n"), 40000), 0o644))
+					}
 					op := map[string]any{"op": kind, "files": []string{c.fifo}, "output": c.out}
 					if kind == "encode" {
 						op["to"] = c.to.name
